@@ -167,15 +167,17 @@ var xpathExprs = map[string]string{
 	"divdata": "//div[@class='data']", "href": "//a/@href", "title": "//title", "deep": "/html/body//div", "none": "//nosuchtag",
 	"count": "count(//a)", "string": "string(//title)", "arith": "1+1", "bool": "boolean(//a)",
 	"bad": "//[", "bad2": "///",
+	"lis": "//li[@class='it']",
 }
 
-var jsonPaths = map[string]string{"result": "$.result", "item0": "$.items[0]", "missing": "$.missing", "ab": "$.a.b", "items": "$.items"}
+var jsonPaths = map[string]string{"result": "$.result", "item0": "$.items[0]", "missing": "$.missing", "ab": "$.a.b", "items": "$.items",
+	"names": "$.names", "objs": "$.objs", "n": "$.n", "a": "$.a", "v": "$.v", "l": "$.l"}
 
 func bodyOf(class string) []byte {
 	if strings.HasPrefix(class, "raw:") {
 		return []byte(unhx(class[4:]))
 	}
-	sc, err := shot.ParseScript("b" + class)
+	sc, err := c19ParseScript("b" + class)
 	if err != nil {
 		panic(err)
 	}
@@ -407,13 +409,13 @@ func runRun1(m map[string]string) string {
 		conf := shot.PoolYAML("uri", f, fmt.Sprintf(", passes: %d", passes), httpGunYAML(gun, target, m), passes*len(reqs)+inst, inst)
 		return fmtRun(runEngine(conf, 60*time.Second, debug))
 	case "http/scenario", "http2/scenario":
-		var steps []shot.ScnStep
+		var steps []c19Step
 		for i, r := range strings.Split(m["steps"], ";") {
 			f := strings.Split(r, ",")
 			if len(f) < 4 {
 				panic("bad step " + r)
 			}
-			st := shot.ScnStep{Name: f[0], URI: "/scn/" + f[0], Script: f[1]}
+			st := c19Step{ScnStep: shot.ScnStep{Name: f[0], URI: "/scn/" + f[0], Script: f[1]}}
 			for _, p := range splitNonEmpty(f[3], "+") {
 				switch {
 				case p == "-":
@@ -423,6 +425,22 @@ func runRun1(m map[string]string) string {
 					// the URI uses the variable `v` a postprocessor of the previous step extracted from ITS response
 					st.URI += "?x={{.request." + strings.Split(strings.Split(m["steps"], ";")[i-1], ",")[0] + ".postprocessor.v}}"
 				case p == "U":
+				case strings.HasPrefix(p, "P~") || strings.HasPrefix(p, "F~"):
+					// a preprocessor that reads a variable stored from an earlier RESPONSE; the URI renders its result
+					blk, uri := preToken(p, f[0])
+					st.PP = append(st.PP, blk)
+					st.URI += uri
+				case strings.HasPrefix(p, "T~"):
+					// the URI indexes a list stored from an earlier response
+					g := strings.Split(p, "~")
+					st.URI += "?t={{index .request." + g[1] + ".postprocessor.v " + g[2] + "}}"
+				case strings.HasPrefix(p, "UH~"):
+					st.Headers = append(st.Headers, [2]string{"X-Tok", "{{.request." + p[3:] + ".postprocessor.v}}"})
+				case strings.HasPrefix(p, "UB~"):
+					st.Method = "POST"
+					st.Body = `{"v": "{{.request.` + p[3:] + `.postprocessor.v}}"}`
+				case p == "TH":
+					st.PP = append(st.PP, "templater {\n    type = \"html\"\n  }")
 				default:
 					st.PP = append(st.PP, ppHCL(p))
 				}
@@ -446,7 +464,7 @@ func runRun1(m map[string]string) string {
 		default:
 			target = sharedHostile("").Addr
 		}
-		f := shot.TempFile(".hcl", shot.ScenarioHCL("scn", steps))
+		f := shot.TempFile(".hcl", c19ScenarioHCL("scn", steps))
 		conf := shot.PoolYAML("http/scenario", f, "", httpGunYAML(gun, target, m), atoi(m["n"], 1), inst)
 		return fmtRun(runEngine(conf, 60*time.Second, debug))
 	case "grpc":
@@ -551,6 +569,8 @@ func run(input string) string {
 		return runXpath(m)
 	case "jsonpath":
 		return runJsonpath(m)
+	case "idx":
+		return runIdx(m)
 	case "run":
 		return runRun(m)
 	}
@@ -1170,6 +1190,8 @@ func gen(r *rand.Rand, tier string) []string {
 		out = append(out, fmt.Sprintf("k=run gun=grpc/scenario tgt=grpc inst=%d n=%d%s calls=%s", []int{1, 2}[r.Intn(2)], 1+r.Intn(3), opts, strings.Join(calls, ";")))
 	}
 	out = append(out, "k=run gun=grpc/scenario tgt=grpc inst=1 n=2 to=600 calls=t0,hang,0,as200;t1,ok,0,-")
+	// 8. response-derived variables read by preprocessors, template functions and templates (vars.go)
+	out = append(out, genVars(r, thorough)...)
 	return out
 }
 
